@@ -702,3 +702,15 @@ Lemma good_doc_accepted :
   re1 pat_nonspace "next" = true /\
   fst (walk_wf_list re1 pp1 good_doc) = VOk /\ List.length (snd (walk_wf_list re1 pp1 good_doc)) = 10.
 Proof. vm_compute. auto. Qed.
+
+(* ------------------------------------------------------------------------- *)
+(* the inline-parameter oracle `pp` and the with-items literal are total: every json.loads over
+   the text of a string value (Gen/Reparse.v, enumerated from the source) sits in a `try` that
+   catches every exception, so an inner literal either parses or is kept / rejected - it never
+   escapes as ValueError (more than 4300 digits) or RecursionError (deep nesting) *)
+Require Import Mistral.Gen.Reparse.
+
+Lemma reparse_json_guarded :
+  forallb (fun s => snd s) json_loads_sites = true /\ List.length json_loads_sites = 2 /\
+  List.length reparse_sites = 27.
+Proof. vm_compute. auto. Qed.
